@@ -63,6 +63,15 @@ def slices_body(env, p):
     else:
         sel, N = clr.chroms(), len(layout)
         cols = {"length": lens}
+    if p.get("late_column"):
+        # a column stored after this Cooler object was made (what balance_cooler(store=True) or a user writing through clr.open("r+")
+        # does): the selectors of the same object return it with the default column set
+        f = env.h5.File(path, "r+")
+        grp, nm, ln = ("bins", "gc", n) if table == "bins" else ("pixels", "score", K)
+        late = [7 + 2 * t for t in range(ln)]
+        f[grp].create_dataset(nm, data=np.array(late, dtype=np.int64))
+        f.close()
+        cols[nm] = late
     single = p.get("single")
     if single:
         # one column picked by name: the selector yields a Series, same rows, same labels
@@ -105,6 +114,9 @@ def slices_body(env, p):
         return None
     conds = [lab == lo + t for t, lab in enumerate(idx)]
     for name, ref in cols.items():
+        if hasattr(out, "columns") and name not in list(out.columns):
+            env.fail(f"the stored column '{name}' is missing from the rows returned (columns {list(out.columns)})")
+            return None
         got = vals(out[name]) if hasattr(out, "columns") else vals(out)
         if name == "chrom":
             got = [names.index(x) if isinstance(x, str) else x for x in got]   # names back to ids for the comparison
@@ -131,6 +143,8 @@ def _slice_cases(tier):
                     out.append(dict(layout=[2, 1], K=3, table=table, subset=subset, scalar=False, a_none=an, b_none=bn))
     if tier != "quick":
         out += [dict(c, layout=[2, 2], K=4) for c in out if c["table"] != "chroms"]
+    for table in ("bins", "pixels"):
+        out.append(dict(layout=[2, 1], K=2, table=table, subset=False, scalar=False, a_none=True, b_none=False, late_column=True))
     # one column picked by name (Series output), enum and integer chromosome encodings
     for single, int_enc in (("chrom", False), ("chrom", True), ("start", True)):
         out.append(dict(layout=[2, 1], K=1, table="bins", subset=False, scalar=False, a_none=False, b_none=False, single=single, int_enc=int_enc))
